@@ -486,6 +486,14 @@ class RestAPI(object):
                     )
                     return aws_error("StateMachineDoesNotExist"), 400
 
+                """
+                Work on a copy so that a request that is refused further down
+                leaves the stored State Machine untouched; the copy is written
+                back to the store at the end when everything has been validated.
+                """
+                state_machine = dict(state_machine)
+                name = state_machine.get("name")
+
                 role_arn = params.get("roleArn")
                 if role_arn:
                     if not valid_role_arn(role_arn):
